@@ -46,7 +46,7 @@ def split_lines(lines, rnd, max_files=3, prefix="inc"):
             break
         i = rnd.randrange(0, len(items) - 1)
         j = rnd.randint(i + 1, min(len(items), i + rnd.choice([1, 2, 3, 6, 12])))
-        name = "%s%d" % (prefix, k)
+        name = rnd.choice(["%s%d", "%s%d", "lib/%s_%d.theo", "a rather long directory/%s%d.theo"]) % (prefix, k)
         files[name] = "\n".join(items[i:j])
         items[i:j] = ['%s "%s"' % (rnd.choice(L.SPELL[L.INCLUDE]), name)]
     files["main"] = "\n".join(items)
@@ -63,7 +63,7 @@ def split_tokens(tokens, rnd, max_files=3, prefix="f", layout=True):
             break
         i = rnd.randrange(0, len(items) - 1)
         j = rnd.randint(i + 1, min(len(items), i + rnd.choice([1, 1, 2, 5, 20])))
-        name = "%s%d" % (prefix, k)
+        name = rnd.choice(["%s%d", "%s%d", "lib/%s_%d.theo", "a rather long directory/%s%d.theo"]) % (prefix, k)
         files[name] = items[i:j]
         items[i:j] = [("INC", name)]
 
